@@ -274,65 +274,165 @@ def supB (env : Env) (cfg : GCfg) (nomsg : List Suppr) (f : Finding) : Bool :=
 def explB (env : Env) (cfg : GCfg) (nomsg : List Suppr) (f : Finding) : Bool :=
   anyExplicit env cfg.useGlobal (toMsg env cfg f) nomsg
 
+/-- would the full list (global entries included) suppress the finding?  (`suppressedLater` when the logger runs
+    without the global suppressions) -/
+def laterB (env : Env) (cfg : GCfg) (nomsg : List Suppr) (f : Finding) : Bool :=
+  anyMatch env true (toMsg env cfg f) nomsg
+
+/-- does the finding use the duplicate filter of the suppressed findings? -/
+def useSupB (dfix : Bool) (env : Env) (cfg : GCfg) (nomsg : List Suppr) (f : Finding) : Bool :=
+  dfix && (supB env cfg nomsg f || (!cfg.useGlobal && laterB env cfg nomsg f))
+
+/-- the two duplicate filters: (`mErrorList`, `mSuppressedErrorList`) -/
+abbrev Filters := List Str × List Str
+
+def Filters.sel (ls : Filters) (b : Bool) : List Str := if b then ls.2 else ls.1
+def Filters.ins (ls : Filters) (b : Bool) (t : Str) : Filters := if b then (ls.1, t :: ls.2) else (t :: ls.1, ls.2)
+
 /-- what one gate call appends to the output, as a function of the `nomsg` list (flags irrelevant) and the
-    duplicate filter -/
-def stepOut (env : Env) (cfg : GCfg) (nomsg : List Suppr) (el : List Str) (f : Finding) : List Out :=
+    duplicate filters -/
+def stepOut (dfix : Bool) (env : Env) (cfg : GCfg) (nomsg : List Suppr) (ls : Filters) (f : Finding) : List Out :=
   if f.internal then [{ f := f }]
   else if !f.libReports then []
   else
     (if supB env cfg nomsg f && cfg.safety && f.critical then [{ f := f, asInternal := explB env cfg nomsg f }] else []) ++
-    (if f.text.isEmpty || (!cfg.emitDuplicates && el.contains f.text) || supB env cfg nomsg f then []
+    (if f.text.isEmpty || (!cfg.emitDuplicates && (ls.sel (useSupB dfix env cfg nomsg f)).contains f.text) ||
+        supB env cfg nomsg f then []
      else [{ f := f, remark := remarkFor cfg f }])
 
-def stepEl (dfix : Bool) (env : Env) (cfg : GCfg) (nomsg : List Suppr) (el : List Str) (f : Finding) : List Str :=
-  if f.internal || !f.libReports || f.text.isEmpty || (dfix && supB env cfg nomsg f) || cfg.emitDuplicates ||
-      el.contains f.text then el
-  else f.text :: el
+def stepEl (dfix : Bool) (env : Env) (cfg : GCfg) (nomsg : List Suppr) (ls : Filters) (f : Finding) : Filters :=
+  if f.internal || !f.libReports || f.text.isEmpty || cfg.emitDuplicates ||
+      (ls.sel (useSupB dfix env cfg nomsg f)).contains f.text then ls
+  else ls.ins (useSupB dfix env cfg nomsg f) f.text
 
-theorem stepEl_congr (dfix : Bool) (env : Env) (cfg : GCfg) {a b : List Suppr} (h : FlagEq a b) (el : List Str)
-    (f : Finding) : stepEl dfix env cfg a el f = stepEl dfix env cfg b el f := by
-  unfold stepEl supB
-  rw [anyMatch_congr env _ _ h]
+theorem useSupB_congr (dfix : Bool) (env : Env) (cfg : GCfg) {a b : List Suppr} (h : FlagEq a b) (f : Finding) :
+    useSupB dfix env cfg a f = useSupB dfix env cfg b f := by
+  unfold useSupB supB laterB
+  rw [anyMatch_congr env _ _ h, anyMatch_congr env _ _ h]
 
-theorem stepOut_congr (env : Env) (cfg : GCfg) {a b : List Suppr} (h : FlagEq a b) (el : List Str) (f : Finding) :
-    stepOut env cfg a el f = stepOut env cfg b el f := by
-  unfold stepOut supB explB
+theorem stepEl_congr (dfix : Bool) (env : Env) (cfg : GCfg) {a b : List Suppr} (h : FlagEq a b) (ls : Filters)
+    (f : Finding) : stepEl dfix env cfg a ls f = stepEl dfix env cfg b ls f := by
+  unfold stepEl
+  rw [useSupB_congr dfix env cfg h]
+
+theorem stepOut_congr (dfix : Bool) (env : Env) (cfg : GCfg) {a b : List Suppr} (h : FlagEq a b) (ls : Filters)
+    (f : Finding) : stepOut dfix env cfg a ls f = stepOut dfix env cfg b ls f := by
+  unfold stepOut
+  rw [useSupB_congr dfix env cfg h]
+  unfold supB explB
   rw [anyMatch_congr env _ _ h, anyExplicit_congr env _ _ h]
 
 theorem exitStep_spec (env : Env) (st : GState) (m : Msg) :
     FlagEq (exitStep env st m).nomsg st.nomsg ∧ (exitStep env st m).out = st.out ∧
-    (exitStep env st m).errorList = st.errorList := by
+    (exitStep env st m).errorList = st.errorList ∧ (exitStep env st m).supErrorList = st.supErrorList := by
   unfold exitStep
   dsimp only
   split
-  · exact ⟨rfl, rfl, rfl⟩
+  · exact ⟨rfl, rfl, rfl, rfl⟩
   · split
-    · exact ⟨listIsSuppressed_snd _ _ _ _, rfl, rfl⟩
-    · exact ⟨listIsSuppressed_snd _ _ _ _, rfl, rfl⟩
+    · exact ⟨listIsSuppressed_snd _ _ _ _, rfl, rfl, rfl⟩
+    · exact ⟨listIsSuppressed_snd _ _ _ _, rfl, rfl, rfl⟩
 
 theorem safetyStep_spec (env : Env) (cfg : GCfg) (st : GState) (f : Finding) (m : Msg) (sup : Bool) :
     FlagEq (safetyStep env cfg st f m sup).nomsg st.nomsg ∧
     (safetyStep env cfg st f m sup).errorList = st.errorList ∧
+    (safetyStep env cfg st f m sup).supErrorList = st.supErrorList ∧
     (safetyStep env cfg st f m sup).out = st.out ++
       (if sup && cfg.safety && f.critical then [{ f := f, asInternal := anyExplicit env cfg.useGlobal m st.nomsg }] else []) := by
   unfold safetyStep
   by_cases hc : (sup && cfg.safety && f.critical) = true
   · simp only [hc, if_true]
     split
-    · refine ⟨FlagEq.trans (listIsSuppressed_snd _ _ _ _) (listIsSuppressedExplicitly_snd _ _ _ _), rfl, ?_⟩
+    · refine ⟨FlagEq.trans (listIsSuppressed_snd _ _ _ _) (listIsSuppressedExplicitly_snd _ _ _ _), rfl, rfl, ?_⟩
       simp [listIsSuppressedExplicitly_fst]
-    · refine ⟨listIsSuppressedExplicitly_snd _ _ _ _, rfl, ?_⟩
+    · refine ⟨listIsSuppressedExplicitly_snd _ _ _ _, rfl, rfl, ?_⟩
       simp [listIsSuppressedExplicitly_fst]
   · simp only [hc, if_false, Bool.false_eq_true]
     split
-    · exact ⟨listIsSuppressed_snd _ _ _ _, rfl, by simp⟩
-    · exact ⟨rfl, rfl, by simp⟩
+    · exact ⟨listIsSuppressed_snd _ _ _ _, rfl, rfl, by simp⟩
+    · exact ⟨rfl, rfl, rfl, by simp⟩
+
+/-- the part of `reportErrG` after the empty-rendering test, as a function of the state `st2` reached so far -/
+def tailStep (dfix : Bool) (env : Env) (cfg : GCfg) (st2 : GState) (f : Finding) (m : Msg) (sup : Bool) : GState :=
+  let rl := if dfix && !sup && !cfg.useGlobal then listIsSuppressed env true m st2.nomsg else (false, st2.nomsg)
+  let st2b : GState := { st2 with nomsg := rl.2 }
+  let useSup := dfix && (sup || rl.1)
+  if !cfg.emitDuplicates && (if useSup then st2b.supErrorList else st2b.errorList).contains f.text then st2b
+  else
+    let st3 : GState :=
+      if cfg.emitDuplicates then st2b
+      else if useSup then { st2b with supErrorList := f.text :: st2b.supErrorList }
+      else { st2b with errorList := f.text :: st2b.errorList }
+    if sup then st3
+    else
+      let st5 := exitStep env st3 m
+      { st5 with out := st5.out ++ [{ f := f, remark := remarkFor cfg f }] }
+
+theorem tailStep_spec (dfix : Bool) (env : Env) (cfg : GCfg) (st2 : GState) (f : Finding) (sup us : Bool)
+    (nomsg : List Suppr) (hn : FlagEq st2.nomsg nomsg)
+    (hus : us = (dfix && (sup || (!cfg.useGlobal && anyMatch env true (toMsg env cfg f) nomsg)))) :
+    FlagEq (tailStep dfix env cfg st2 f (toMsg env cfg f) sup).nomsg nomsg ∧
+    (tailStep dfix env cfg st2 f (toMsg env cfg f) sup).out = st2.out ++
+      (if (!cfg.emitDuplicates && (Filters.sel (st2.errorList, st2.supErrorList) us).contains f.text) || sup then []
+       else [{ f := f, remark := remarkFor cfg f }]) ∧
+    ((tailStep dfix env cfg st2 f (toMsg env cfg f) sup).errorList,
+     (tailStep dfix env cfg st2 f (toMsg env cfg f) sup).supErrorList) =
+      (if cfg.emitDuplicates || (Filters.sel (st2.errorList, st2.supErrorList) us).contains f.text
+       then (st2.errorList, st2.supErrorList) else Filters.ins (st2.errorList, st2.supErrorList) us f.text) := by
+  -- value of `useSup`
+  have hrl1 : (dfix && (sup || (if dfix && !sup && !cfg.useGlobal then listIsSuppressed env true (toMsg env cfg f) st2.nomsg
+      else (false, st2.nomsg)).1)) = us := by
+    rw [hus]
+    by_cases h : (dfix && !sup && !cfg.useGlobal) = true
+    · simp only [h, if_true, listIsSuppressed_fst, anyMatch_congr env true _ hn]
+      simp only [Bool.and_eq_true, Bool.not_eq_true'] at h
+      simp [h.1.1, h.1.2, h.2]
+    · simp only [h, if_false, Bool.false_eq_true]
+      revert h
+      generalize anyMatch env true (toMsg env cfg f) nomsg = x
+      cases dfix <;> cases sup <;> cases cfg.useGlobal <;> cases x <;> simp
+  have hrl2 : FlagEq (if dfix && !sup && !cfg.useGlobal then listIsSuppressed env true (toMsg env cfg f) st2.nomsg
+      else (false, st2.nomsg)).2 nomsg := by
+    split
+    · exact FlagEq.trans (listIsSuppressed_snd _ _ _ _) hn
+    · exact hn
+  have X := fun st => exitStep_spec env st (toMsg env cfg f)
+  unfold tailStep
+  dsimp only
+  rw [hrl1]
+  generalize (if dfix && !sup && !cfg.useGlobal then listIsSuppressed env true (toMsg env cfg f) st2.nomsg
+      else (false, st2.nomsg)).2 = nm at hrl2 ⊢
+  cases us <;> cases he : cfg.emitDuplicates <;> cases hs : sup <;>
+    simp only [Filters.sel, Filters.ins, Bool.not_true, Bool.not_false, Bool.false_and, Bool.true_and,
+      Bool.false_eq_true, if_true, if_false, Bool.false_or, Bool.true_or, Bool.or_false, Bool.or_true]
+  all_goals first
+    | (split
+       · exact ⟨hrl2, by simp, rfl⟩
+       · first
+         | exact ⟨hrl2, by simp, rfl⟩
+         | exact ⟨FlagEq.trans (X _).1 hrl2, by simp [(X _).2.1], by simp [(X _).2.2.1, (X _).2.2.2]⟩)
+    | exact ⟨hrl2, by simp, rfl⟩
+    | exact ⟨hrl2, by simp, trivial⟩
+    | exact ⟨FlagEq.trans (X _).1 hrl2, by simp [(X _).2.1], by simp [(X _).2.2.1, (X _).2.2.2]⟩
+
+theorem reportErrG_eq (dfix : Bool) (env : Env) (cfg : GCfg) (st : GState) (f : Finding) :
+    reportErrG dfix env cfg st f =
+      if f.internal then { st with out := st.out ++ [{ f := f }] }
+      else if !f.libReports then st
+      else
+        let st2 := safetyStep env cfg
+          { st with nomsg := (listIsSuppressed env cfg.useGlobal (toMsg env cfg f) st.nomsg).2 } f (toMsg env cfg f)
+          (listIsSuppressed env cfg.useGlobal (toMsg env cfg f) st.nomsg).1
+        if f.text.isEmpty then st2
+        else tailStep dfix env cfg st2 f (toMsg env cfg f) (listIsSuppressed env cfg.useGlobal (toMsg env cfg f) st.nomsg).1 := rfl
 
 theorem reportErrG_spec (dfix : Bool) (env : Env) (cfg : GCfg) (st : GState) (f : Finding) :
     FlagEq (reportErrG dfix env cfg st f).nomsg st.nomsg ∧
-    (reportErrG dfix env cfg st f).out = st.out ++ stepOut env cfg st.nomsg st.errorList f ∧
-    (reportErrG dfix env cfg st f).errorList = stepEl dfix env cfg st.nomsg st.errorList f := by
-  unfold reportErrG stepOut stepEl
+    (reportErrG dfix env cfg st f).out = st.out ++ stepOut dfix env cfg st.nomsg (st.errorList, st.supErrorList) f ∧
+    ((reportErrG dfix env cfg st f).errorList, (reportErrG dfix env cfg st f).supErrorList) =
+      stepEl dfix env cfg st.nomsg (st.errorList, st.supErrorList) f := by
+  rw [reportErrG_eq]
+  unfold stepOut stepEl
   by_cases hi : f.internal = true
   · simp [hi, FlagEq]
   · by_cases hl : f.libReports = true
@@ -341,82 +441,39 @@ theorem reportErrG_spec (dfix : Bool) (env : Env) (cfg : GCfg) (st : GState) (f 
         rw [listIsSuppressed_fst]; rfl
       have hr2 : FlagEq (listIsSuppressed env cfg.useGlobal (toMsg env cfg f) st.nomsg).2 st.nomsg :=
         listIsSuppressed_snd _ _ _ _
-      obtain ⟨s1, s2, s3⟩ := safetyStep_spec env cfg
+      obtain ⟨s1, s2, s2', s3⟩ := safetyStep_spec env cfg
         { st with nomsg := (listIsSuppressed env cfg.useGlobal (toMsg env cfg f) st.nomsg).2 } f (toMsg env cfg f)
         (listIsSuppressed env cfg.useGlobal (toMsg env cfg f) st.nomsg).1
       have s1' := FlagEq.trans s1 hr2
       have hex : anyExplicit env cfg.useGlobal (toMsg env cfg f)
           (listIsSuppressed env cfg.useGlobal (toMsg env cfg f) st.nomsg).2 = explB env cfg st.nomsg f :=
         anyExplicit_congr env _ _ hr2
-      dsimp only at s1' s2 s3
+      dsimp only at s1' s2 s2' s3 ⊢
       generalize safetyStep env cfg
         { st with nomsg := (listIsSuppressed env cfg.useGlobal (toMsg env cfg f) st.nomsg).2 } f (toMsg env cfg f)
-        (listIsSuppressed env cfg.useGlobal (toMsg env cfg f) st.nomsg).1 = st2 at s1' s2 s3 ⊢
+        (listIsSuppressed env cfg.useGlobal (toMsg env cfg f) st.nomsg).1 = st2 at s1' s2 s2' s3 ⊢
       rw [hex, hr1] at s3
       rw [hr1]
       by_cases ht : f.text.isEmpty = true
-      · simp [ht, s1', s2, s3]
-      · by_cases hfx : (dfix && supB env cfg st.nomsg f) = true
-        · have hs : supB env cfg st.nomsg f = true := by
-            simp only [Bool.and_eq_true] at hfx; exact hfx.2
-          simp only [ht, hfx, if_true, if_false, Bool.false_eq_true]
-          refine ⟨s1', ?_, ?_⟩
-          · rw [s3]; simp [hs]
-          · rw [s2]; simp
-        · by_cases hd : (!cfg.emitDuplicates && st2.errorList.contains f.text) = true
-          · have hd' := hd
-            rw [s2] at hd'
-            simp only [Bool.and_eq_true, Bool.not_eq_true'] at hd'
-            simp only [ht, hfx, hd, if_true, if_false, Bool.false_eq_true]
-            have hmem : f.text ∈ st.errorList := by simpa using hd'.2
-            refine ⟨s1', ?_, ?_⟩
-            · rw [s3]; simp [hd'.1, hmem]
-            · rw [s2]; simp [hmem]
-          · have hd' := hd
-            rw [s2] at hd'
-            simp only [ht, hfx, hd, if_false, Bool.false_eq_true]
-            by_cases hs : supB env cfg st.nomsg f = true
-            · simp only [hs, if_true]
-              by_cases he : cfg.emitDuplicates = true
-              · simp only [he, if_true]
-                refine ⟨s1', ?_, ?_⟩
-                · rw [s3]; simp [hs]
-                · rw [s2]; simp [he]
-              · simp only [he, if_false, Bool.false_eq_true]
-                refine ⟨s1', ?_, ?_⟩
-                · rw [s3]; simp [hs]
-                · have hnm : f.text ∉ st.errorList := by
-                    simpa [he] using hd'
-                  have hdf : dfix = false := by
-                    cases dfix with
-                    | false => rfl
-                    | true => simp [hs] at hfx
-                  rw [s2]; simp [he, hnm, hdf]
-            · simp only [hs, if_false, Bool.false_eq_true]
-              by_cases he : cfg.emitDuplicates = true
-              · simp only [he, if_true]
-                obtain ⟨x1, x2, x3⟩ := exitStep_spec env st2 (toMsg env cfg f)
-                refine ⟨FlagEq.trans x1 s1', ?_, ?_⟩
-                · simp only [x2, s3]; simp [hs, he]
-                · simp only [x3, s2]; simp [he]
-              · simp only [he, if_false, Bool.false_eq_true]
-                obtain ⟨x1, x2, x3⟩ := exitStep_spec env { st2 with errorList := f.text :: st2.errorList } (toMsg env cfg f)
-                have hnm : f.text ∉ st.errorList := by
-                  simpa [he] using hd'
-                dsimp only at x1 x2 x3 ⊢
-                refine ⟨FlagEq.trans x1 s1', ?_, ?_⟩
-                · rw [x2, s3]; simp [hs, he, hnm]
-                · rw [x3, s2]; simp [hs, he, hnm]
+      · simp [ht, s1', s2, s2', s3]
+      · simp only [ht, if_false, Bool.false_eq_true, Bool.false_or]
+        obtain ⟨t1, t2, t3⟩ := tailStep_spec dfix env cfg st2 f (supB env cfg st.nomsg f)
+          (useSupB dfix env cfg st.nomsg f) st.nomsg s1' (by unfold useSupB laterB; rfl)
+        rw [s2, s2'] at t2 t3
+        refine ⟨t1, ?_, ?_⟩
+        · rw [t2, s3, List.append_assoc]
+        · rw [t3]
     · simp [hi, hl, FlagEq]
 
 /-- output of the whole run as a function of the (flag-erased) `nomsg` list -/
-def outAcc (dfix : Bool) (env : Env) (cfg : GCfg) (nomsg : List Suppr) : List Str → List Finding → List Out
+def outAcc (dfix : Bool) (env : Env) (cfg : GCfg) (nomsg : List Suppr) : Filters → List Finding → List Out
   | _, [] => []
-  | el, f :: r => stepOut env cfg nomsg el f ++ outAcc dfix env cfg nomsg (stepEl dfix env cfg nomsg el f) r
+  | ls, f :: r => stepOut dfix env cfg nomsg ls f ++ outAcc dfix env cfg nomsg (stepEl dfix env cfg nomsg ls f) r
 
 theorem foldl_out (dfix : Bool) (env : Env) (cfg : GCfg) (nomsg : List Suppr) : ∀ (fs : List Finding) (st : GState),
     FlagEq st.nomsg nomsg →
-    (fs.foldl (reportErrG dfix env cfg) st).out = st.out ++ outAcc dfix env cfg nomsg st.errorList fs := by
+    (fs.foldl (reportErrG dfix env cfg) st).out =
+      st.out ++ outAcc dfix env cfg nomsg (st.errorList, st.supErrorList) fs := by
   intro fs
   induction fs with
   | nil => intro st _; simp [outAcc]
@@ -424,10 +481,10 @@ theorem foldl_out (dfix : Bool) (env : Env) (cfg : GCfg) (nomsg : List Suppr) : 
     intro st h
     obtain ⟨h1, h2, h3⟩ := reportErrG_spec dfix env cfg st f
     simp only [List.foldl_cons, outAcc]
-    rw [ih _ (FlagEq.trans h1 h), h2, h3, stepOut_congr env cfg h, stepEl_congr dfix env cfg h, List.append_assoc]
+    rw [ih _ (FlagEq.trans h1 h), h2, h3, stepOut_congr dfix env cfg h, stepEl_congr dfix env cfg h, List.append_assoc]
 
 theorem gateG_out (dfix : Bool) (env : Env) (cfg : GCfg) (nomsg nofail : List Suppr) (fs : List Finding) :
-    (gateG dfix env cfg nomsg nofail fs).out = outAcc dfix env cfg nomsg [] fs := by
+    (gateG dfix env cfg nomsg nofail fs).out = outAcc dfix env cfg nomsg ([], []) fs := by
   unfold gateG
   rw [foldl_out dfix env cfg nomsg fs _ (FlagEq.refl _)]
   rfl
@@ -448,21 +505,26 @@ def passes (env : Env) (cfg : GCfg) (nomsg : List Suppr) (f : Finding) : Bool :=
     ((!supB env cfg nomsg f && !f.text.isEmpty) ||
      (supB env cfg nomsg f && cfg.safety && f.critical && !explB env cfg nomsg f)))
 
-/-- like `passes`, additionally knowing the duplicate filter -/
+/-- like `passes`, additionally knowing the content `el` of the duplicate filter the finding uses -/
 def passesEl (env : Env) (cfg : GCfg) (nomsg : List Suppr) (el : List Str) (f : Finding) : Bool :=
   f.internal ||
   (f.libReports &&
     ((!supB env cfg nomsg f && !f.text.isEmpty && (cfg.emitDuplicates || !el.contains f.text)) ||
      (supB env cfg nomsg f && cfg.safety && f.critical && !explB env cfg nomsg f)))
 
+/-- the filter a finding uses -/
+def relOf (dfix : Bool) (env : Env) (cfg : GCfg) (nomsg : List Suppr) (ls : Filters) (f : Finding) : List Str :=
+  ls.sel (useSupB dfix env cfg nomsg f)
+
 theorem reported_nil (f : Finding) : Reported [] f ↔ False := by simp [Reported]
 
 theorem reported_singleton (o : Out) (f : Finding) : Reported [o] f ↔ (o.f = f ∧ o.asInternal = false) := by
   simp [Reported]
 
-theorem reported_stepOut (env : Env) (cfg : GCfg) (nomsg : List Suppr) (el : List Str) (g f : Finding) :
-    Reported (stepOut env cfg nomsg el g) f ↔ g = f ∧ passesEl env cfg nomsg el g = true := by
-  unfold stepOut passesEl
+theorem reported_stepOut (dfix : Bool) (env : Env) (cfg : GCfg) (nomsg : List Suppr) (ls : Filters) (g f : Finding) :
+    Reported (stepOut dfix env cfg nomsg ls g) f ↔
+      g = f ∧ passesEl env cfg nomsg (relOf dfix env cfg nomsg ls g) g = true := by
+  unfold stepOut passesEl relOf
   by_cases hi : g.internal = true
   · simp [hi, reported_singleton]
   · by_cases hl : g.libReports = true
@@ -473,7 +535,7 @@ theorem reported_stepOut (env : Env) (cfg : GCfg) (nomsg : List Suppr) (el : Lis
       generalize explB env cfg nomsg g = a4
       generalize g.text.isEmpty = a5
       generalize cfg.emitDuplicates = a6
-      generalize el.contains g.text = a7
+      generalize (ls.sel (useSupB dfix env cfg nomsg g)).contains g.text = a7
       cases a1 <;> cases a2 <;> cases a3 <;> cases a4 <;> cases a5 <;> cases a6 <;> cases a7 <;>
         simp [reported_singleton, reported_nil]
     · simp [hi, hl, reported_nil]
@@ -489,25 +551,36 @@ theorem reported_append (a b : List Out) (f : Finding) : Reported (a ++ b) f ↔
     · exact ⟨o, Or.inl ho, h⟩
     · exact ⟨o, Or.inr ho, h⟩
 
-theorem stepEl_sub (dfix : Bool) (env : Env) (cfg : GCfg) (nomsg : List Suppr) (el : List Str) (f : Finding) (t : Str)
-    (h : t ∈ el) : t ∈ stepEl dfix env cfg nomsg el f := by
+theorem sel_ins (ls : Filters) (b c : Bool) (t x : Str) :
+    x ∈ (ls.ins b t).sel c ↔ x ∈ ls.sel c ∨ (c = b ∧ x = t) := by
+  cases b <;> cases c <;> simp [Filters.ins, Filters.sel] <;> exact Or.comm
+
+theorem stepEl_sub (dfix : Bool) (env : Env) (cfg : GCfg) (nomsg : List Suppr) (ls : Filters) (f : Finding) (c : Bool)
+    (t : Str) (h : t ∈ ls.sel c) : t ∈ (stepEl dfix env cfg nomsg ls f).sel c := by
   unfold stepEl
   split
   · exact h
-  · exact List.mem_cons_of_mem _ h
+  · exact (sel_ins _ _ _ _ _).2 (Or.inl h)
 
-theorem stepEl_new (dfix : Bool) (env : Env) (cfg : GCfg) (nomsg : List Suppr) (el : List Str) (f : Finding) (t : Str)
-    (h : t ∈ stepEl dfix env cfg nomsg el f) :
-    t ∈ el ∨ (t = f.text ∧ f.internal = false ∧ f.libReports = true ∧ f.text.isEmpty = false ∧
-      (dfix && supB env cfg nomsg f) = false ∧ cfg.emitDuplicates = false ∧ el.contains f.text = false) := by
+/-- a rendering enters a filter only in a step whose finding is processed on the normal path, uses that filter and
+    was not yet in it -/
+def Inserts (dfix : Bool) (env : Env) (cfg : GCfg) (nomsg : List Suppr) (ls : Filters) (g : Finding) (c : Bool) : Prop :=
+  g.internal = false ∧ g.libReports = true ∧ g.text.isEmpty = false ∧ cfg.emitDuplicates = false ∧
+  useSupB dfix env cfg nomsg g = c ∧ (ls.sel c).contains g.text = false
+
+theorem stepEl_new (dfix : Bool) (env : Env) (cfg : GCfg) (nomsg : List Suppr) (ls : Filters) (g : Finding) (c : Bool)
+    (t : Str) (h : t ∈ (stepEl dfix env cfg nomsg ls g).sel c) :
+    t ∈ ls.sel c ∨ (t = g.text ∧ Inserts dfix env cfg nomsg ls g c) := by
   unfold stepEl at h
   split at h
   · exact Or.inl h
   · rename_i hc
     simp only [Bool.or_eq_true, Bool.not_eq_true', not_or, Bool.not_eq_true] at hc
-    rcases List.mem_cons.1 h with h | h
-    · exact Or.inr ⟨h, hc.1.1.1.1.1, by simpa using hc.1.1.1.1.2, hc.1.1.1.2, hc.1.1.2, hc.1.2, hc.2⟩
+    rcases (sel_ins _ _ _ _ _).1 h with h | ⟨hcb, ht⟩
     · exact Or.inl h
+    · right
+      refine ⟨ht, hc.1.1.1.1, by simpa using hc.1.1.1.2, hc.1.1.2, hc.1.2, hcb.symm, ?_⟩
+      rw [hcb]; exact hc.2
 
 /-- `passesEl` only gets harder when the filter grows -/
 theorem passesEl_mono (env : Env) (cfg : GCfg) (nomsg : List Suppr) (el el' : List Str) (f : Finding)
@@ -532,56 +605,63 @@ theorem passesEl_mono (env : Env) (cfg : GCfg) (nomsg : List Suppr) (el el' : Li
     generalize cfg.emitDuplicates = a6
     cases b1 <;> cases b2 <;> cases a1 <;> cases a2 <;> cases a3 <;> cases a4 <;> cases a5 <;> cases a6 <;> cases a7 <;> simp
 
+/-- if the finding's rendering is not in the filter, the filter does not matter -/
+theorem passesEl_free (env : Env) (cfg : GCfg) (nomsg : List Suppr) (el el' : List Str) (f : Finding)
+    (hn : f.text ∉ el') (h : passesEl env cfg nomsg el f = true) : passesEl env cfg nomsg el' f = true := by
+  unfold passesEl at h ⊢
+  revert h
+  simp only [hn, List.contains_iff_mem, decide_false, Bool.not_false, Bool.or_true, Bool.and_true, List.elem_eq_mem]
+  generalize decide (f.text ∈ el) = a7
+  generalize f.internal = b1
+  generalize f.libReports = b2
+  generalize supB env cfg nomsg f = a1
+  generalize cfg.safety = a2
+  generalize f.critical = a3
+  generalize explB env cfg nomsg f = a4
+  generalize f.text.isEmpty = a5
+  generalize cfg.emitDuplicates = a6
+  cases b1 <;> cases b2 <;> cases a1 <;> cases a2 <;> cases a3 <;> cases a4 <;> cases a5 <;> cases a6 <;> cases a7 <;> simp
+
 /-- soundness of the gate (no hypothesis): whatever is forwarded unaltered is a finding of the run that passes -/
 theorem reported_outAcc_sound (dfix : Bool) (env : Env) (cfg : GCfg) (nomsg : List Suppr) :
-    ∀ (fs : List Finding) (el : List Str) (f : Finding),
-    Reported (outAcc dfix env cfg nomsg el fs) f → f ∈ fs ∧ passesEl env cfg nomsg el f = true := by
+    ∀ (fs : List Finding) (ls : Filters) (f : Finding),
+    Reported (outAcc dfix env cfg nomsg ls fs) f →
+      f ∈ fs ∧ passesEl env cfg nomsg (relOf dfix env cfg nomsg ls f) f = true := by
   intro fs
   induction fs with
-  | nil => intro el f h; simp [outAcc, Reported] at h
+  | nil => intro ls f h; simp [outAcc, Reported] at h
   | cons g r ih =>
-    intro el f h
+    intro ls f h
     simp only [outAcc, reported_append, reported_stepOut] at h
     rcases h with ⟨rfl, h⟩ | h
     · exact ⟨List.mem_cons_self, h⟩
     · obtain ⟨hm, hp⟩ := ih _ f h
       exact ⟨List.mem_cons_of_mem _ hm,
-        passesEl_mono env cfg nomsg el _ f (fun t ht => stepEl_sub dfix env cfg nomsg el g t ht) hp⟩
+        passesEl_mono env cfg nomsg _ _ f (fun t ht => stepEl_sub dfix env cfg nomsg ls g _ t ht) hp⟩
 
-/-- the filter does not block `f` after the step unless the step itself inserted `f`'s text -/
-theorem passesEl_step (dfix : Bool) (env : Env) (cfg : GCfg) (nomsg : List Suppr) (el : List Str) (g f : Finding)
-    (h : passesEl env cfg nomsg el f = true)
-    (hn : ¬ (f.text = g.text ∧ g.internal = false ∧ g.libReports = true ∧ g.text.isEmpty = false ∧
-      (dfix && supB env cfg nomsg g) = false ∧ cfg.emitDuplicates = false ∧ el.contains g.text = false)) :
-    passesEl env cfg nomsg (stepEl dfix env cfg nomsg el g) f = true := by
-  by_cases hc : f.text ∈ stepEl dfix env cfg nomsg el g
-  · rcases stepEl_new dfix env cfg nomsg el g _ hc with hc' | hc'
+/-- the filter does not block `f` after the step unless the step itself inserted `f`'s rendering into `f`'s filter -/
+theorem passesEl_step (dfix : Bool) (env : Env) (cfg : GCfg) (nomsg : List Suppr) (ls : Filters) (g f : Finding)
+    (h : passesEl env cfg nomsg (relOf dfix env cfg nomsg ls f) f = true)
+    (hn : ¬ (f.text = g.text ∧ Inserts dfix env cfg nomsg ls g (useSupB dfix env cfg nomsg f))) :
+    passesEl env cfg nomsg (relOf dfix env cfg nomsg (stepEl dfix env cfg nomsg ls g) f) f = true := by
+  unfold relOf at h ⊢
+  by_cases hc : f.text ∈ (stepEl dfix env cfg nomsg ls g).sel (useSupB dfix env cfg nomsg f)
+  · rcases stepEl_new dfix env cfg nomsg ls g _ _ hc with hc' | hc'
     · unfold passesEl at h ⊢
       simpa [hc, hc'] using h
     · exact absurd hc' hn
-  · unfold passesEl at h ⊢
-    revert h
-    simp only [hc, List.contains_iff_mem, decide_false, Bool.not_false, Bool.or_true, Bool.and_true, List.elem_eq_mem]
-    generalize decide (f.text ∈ el) = a7
-    generalize f.internal = b1
-    generalize f.libReports = b2
-    generalize supB env cfg nomsg f = a1
-    generalize cfg.safety = a2
-    generalize f.critical = a3
-    generalize explB env cfg nomsg f = a4
-    generalize f.text.isEmpty = a5
-    generalize cfg.emitDuplicates = a6
-    cases b1 <;> cases b2 <;> cases a1 <;> cases a2 <;> cases a3 <;> cases a4 <;> cases a5 <;> cases a6 <;> cases a7 <;> simp
+  · exact passesEl_free env cfg nomsg _ _ f hc h
 
 /-- completeness when distinct findings have distinct renderings (or duplicates are emitted) -/
 theorem reported_outAcc_complete (dfix : Bool) (env : Env) (cfg : GCfg) (nomsg : List Suppr) :
-    ∀ (fs : List Finding) (el : List Str), (cfg.emitDuplicates = true ∨ TextInj fs) →
-    ∀ f, f ∈ fs → passesEl env cfg nomsg el f = true → Reported (outAcc dfix env cfg nomsg el fs) f := by
+    ∀ (fs : List Finding) (ls : Filters), (cfg.emitDuplicates = true ∨ TextInj fs) →
+    ∀ f, f ∈ fs → passesEl env cfg nomsg (relOf dfix env cfg nomsg ls f) f = true →
+      Reported (outAcc dfix env cfg nomsg ls fs) f := by
   intro fs
   induction fs with
-  | nil => intro el _ f hm; cases hm
+  | nil => intro ls _ f hm; cases hm
   | cons g r ih =>
-    intro el hd f hm hp
+    intro ls hd f hm hp
     have hd' : cfg.emitDuplicates = true ∨ TextInj r := by
       rcases hd with hd | hd
       · exact Or.inl hd
@@ -595,22 +675,25 @@ theorem reported_outAcc_complete (dfix : Bool) (env : Env) (cfg : GCfg) (nomsg :
         · exact h
       right
       apply ih _ hd' f hmr
-      apply passesEl_step dfix env cfg nomsg el g f hp
-      rintro ⟨ht, -, -, -, -, he, -⟩
+      apply passesEl_step dfix env cfg nomsg ls g f hp
+      rintro ⟨ht, -, -, -, he, -, -⟩
       rcases hd with hd | hd
       · rw [hd] at he; cases he
       · exact hfg (hd f hm g List.mem_cons_self ht)
 
-/-- completeness on renderings for the repaired duplicate filter (no hypothesis on the findings): the rendering of
-    every passing finding is forwarded, carried by a passing finding of the run -/
+/-- completeness on renderings for the current duplicate filters (no hypothesis on the renderings): the rendering of
+    every passing finding that the full suppression list does not suppress either is forwarded, carried by a passing
+    finding of the run -/
 theorem reported_outAcc_texts (env : Env) (cfg : GCfg) (nomsg : List Suppr) :
-    ∀ (fs : List Finding) (el : List Str) (f : Finding), f ∈ fs → passesEl env cfg nomsg el f = true →
-    ∃ g ∈ fs, g.text = f.text ∧ Reported (outAcc true env cfg nomsg el fs) g := by
+    ∀ (fs : List Finding) (ls : Filters) (f : Finding), f ∈ fs →
+    (!cfg.useGlobal && laterB env cfg nomsg f) = false →
+    passesEl env cfg nomsg (relOf true env cfg nomsg ls f) f = true →
+    ∃ g ∈ fs, g.text = f.text ∧ Reported (outAcc true env cfg nomsg ls fs) g := by
   intro fs
   induction fs with
-  | nil => intro el f hm; cases hm
+  | nil => intro ls f hm; cases hm
   | cons h r ih =>
-    intro el f hm hp
+    intro ls f hm hnl hp
     by_cases hfh : f = h
     · subst hfh
       refine ⟨f, List.mem_cons_self, rfl, ?_⟩
@@ -620,25 +703,43 @@ theorem reported_outAcc_texts (env : Env) (cfg : GCfg) (nomsg : List Suppr) :
         rcases List.mem_cons.1 hm with h' | h'
         · exact absurd h' hfh
         · exact h'
-      by_cases hblock : (f.text = h.text ∧ h.internal = false ∧ h.libReports = true ∧ h.text.isEmpty = false ∧
-          (true && supB env cfg nomsg h) = false ∧ cfg.emitDuplicates = false ∧ el.contains h.text = false)
-      · -- `h` itself carries the rendering
-        obtain ⟨ht, hi, hl, hte, hs, he, hc⟩ := hblock
-        refine ⟨h, List.mem_cons_self, ht.symm, ?_⟩
-        simp only [outAcc, reported_append, reported_stepOut]
-        left
-        have hnm : h.text ∉ el := by simpa using hc
-        unfold passesEl
-        simp only [Bool.true_and] at hs
-        simp [hi, hl, hs, hte, hnm]
-      · obtain ⟨g, hg, hgt, hgr⟩ := ih _ f hmr (passesEl_step true env cfg nomsg el h f hp hblock)
+      by_cases hblock : (f.text = h.text ∧ Inserts true env cfg nomsg ls h (useSupB true env cfg nomsg f))
+      · obtain ⟨ht, hi, hl, hte, he, hus, hc⟩ := hblock
+        by_cases hsf : supB env cfg nomsg f = true
+        · -- `f` passes on the safety path: the filters do not matter, continue with the tail
+          have hp' : passesEl env cfg nomsg (relOf true env cfg nomsg (stepEl true env cfg nomsg ls h) f) f = true := by
+            unfold passesEl at hp ⊢
+            revert hp
+            simp only [hsf, Bool.not_true, Bool.false_and, Bool.false_or, Bool.true_and]
+            exact id
+          obtain ⟨g, hg, hgt, hgr⟩ := ih _ f hmr hnl hp'
+          refine ⟨g, List.mem_cons_of_mem _ hg, hgt, ?_⟩
+          simp only [outAcc, reported_append]
+          exact Or.inr hgr
+        · -- `f` uses `mErrorList`, so does `h`, which is therefore not suppressed and carries the rendering
+          have hsf' : supB env cfg nomsg f = false := by simpa using hsf
+          have huf : useSupB true env cfg nomsg f = false := by
+            unfold useSupB; simp [hsf', hnl]
+          rw [huf] at hus hc
+          have hsh : supB env cfg nomsg h = false := by
+            unfold useSupB at hus
+            simp only [Bool.true_and, Bool.or_eq_false_iff] at hus
+            exact hus.1
+          refine ⟨h, List.mem_cons_self, ht.symm, ?_⟩
+          simp only [outAcc, reported_append, reported_stepOut]
+          left
+          have hnm : h.text ∉ ls.sel false := by simpa using hc
+          unfold passesEl relOf
+          rw [hus]
+          simp [hi, hl, hsh, hte, hnm]
+      · obtain ⟨g, hg, hgt, hgr⟩ := ih _ f hmr hnl (passesEl_step true env cfg nomsg ls h f hp hblock)
         refine ⟨g, List.mem_cons_of_mem _ hg, hgt, ?_⟩
         simp only [outAcc, reported_append]
         exact Or.inr hgr
 
-theorem passesEl_nil (env : Env) (cfg : GCfg) (nomsg : List Suppr) (f : Finding) :
-    passesEl env cfg nomsg [] f = passes env cfg nomsg f := by
-  unfold passesEl passes
-  simp
+theorem passesEl_nil (dfix : Bool) (env : Env) (cfg : GCfg) (nomsg : List Suppr) (f : Finding) :
+    passesEl env cfg nomsg (relOf dfix env cfg nomsg ([], []) f) f = passes env cfg nomsg f := by
+  unfold passesEl passes relOf Filters.sel
+  cases useSupB dfix env cfg nomsg f <;> simp
 
 end Cppcheck.Suppress
